@@ -397,6 +397,11 @@ func fileget(h FileReader, r *Request, pkt requestPacket, alloc *allocator, orde
 	if rd == nil {
 		return statusFromError(pkt.id(), errors.New("unexpected read packet"))
 	}
+	switch pkt.(type) {
+	case *sshFxpWritePacket, *sshFxpReaddirPacket:
+		// only a READ may reach the reader of a handle opened for reading
+		return statusFromError(pkt.id(), errors.New("unexpected packet type for read"))
+	}
 
 	data, offset, _ := packetData(pkt, alloc, orderID, maxTxPacket)
 
@@ -418,6 +423,12 @@ func fileput(h FileWriter, r *Request, pkt requestPacket, alloc *allocator, orde
 	wr := r.getWriterAt()
 	if wr == nil {
 		return statusFromError(pkt.id(), errors.New("unexpected write packet"))
+	}
+	switch pkt.(type) {
+	case *sshFxpReadPacket, *sshFxpReaddirPacket:
+		// only a WRITE may reach the writer of a handle opened for writing
+		// (a READ used to be executed as a write of zero bytes)
+		return statusFromError(pkt.id(), errors.New("unexpected packet type for write"))
 	}
 
 	data, offset, _ := packetData(pkt, alloc, orderID, maxTxPacket)
@@ -513,6 +524,11 @@ func filelist(h FileLister, r *Request, pkt requestPacket) responsePacket {
 	lister := r.getListerAt()
 	if lister == nil {
 		return statusFromError(pkt.id(), errors.New("unexpected dir packet"))
+	}
+	switch pkt.(type) {
+	case *sshFxpReadPacket, *sshFxpWritePacket:
+		// only a READDIR may advance the listing of a directory handle
+		return statusFromError(pkt.id(), errors.New("unexpected packet type for dir"))
 	}
 
 	offset := r.lsNext()
